@@ -162,7 +162,9 @@ class C08(framework.PropertyCheck):
     def oracle(self, case, iobs):
         if 'o' not in case['mode']:
             return None
-        base = session.run_impl(self._steps(case['e'], case['mode'].replace('o', '')))
+        from . import impl
+        with impl.no_optimize():
+            base = session.run_impl(self._steps(case['e'], case['mode'].replace('o', '')))
         k = 1 + len(SETUP)
         if len(base) <= k + 1 or base[k][0] != 'ok':
             return None       # the unoptimised program does not complete: nothing is claimed
